@@ -212,6 +212,10 @@ fn hex_head(b: &[u8]) -> String {
     s
 }
 
+fn try_serialize_header(kind: RecordKind) -> Result<Vec<u8>, String> {
+    RecordHeader { kind }.try_serialize().map(|b| b.to_vec()).map_err(|e| format!("{e:?}"))
+}
+
 /// Judge the record decoders on one byte string. `hint` = decoder to try when the header does not decode.
 pub fn judge_record_bytes(bytes: &[u8], hint: RecordKind, f: &mut Findings) {
     let rec = record_of(bytes);
@@ -258,6 +262,22 @@ pub fn judge_record_bytes(bytes: &[u8], hint: RecordKind, f: &mut Findings) {
             if let Some(c) = v.chunk() {
                 if c.address().xorname().0 != sha3_256(c.value()) {
                     f.fail("chunk_address_not_recomputed", format!("decoded chunk address {:?} is not the hash of its {} bytes", c.address(), c.value().len()));
+                }
+            }
+            // "the tag occupies a fixed-size prefix": what was decoded is what sits behind the first SIZE
+            // bytes, i.e. the same bytes behind the canonical SIZE-byte header of that kind decode to
+            // the same value
+            if bytes.len() > RecordHeader::SIZE {
+                if let Ok(h) = try_serialize_header(kind) {
+                    let mut canon = h;
+                    canon.extend_from_slice(&bytes[RecordHeader::SIZE..]);
+                    match decode_as(kind, &record_of(&canon)) {
+                        Ok(v2) if v2 == v => {}
+                        other => f.fail(
+                            format!("content_not_at_fixed_offset/{}", kind_name(kind)),
+                            format!("{} decodes as {}, but bytes[SIZE..] behind the canonical {}-byte header gives {}", hex_head(bytes), kind_name(kind), RecordHeader::SIZE, if other.is_ok() { "another value".to_string() } else { "an error".to_string() }),
+                        ),
+                    }
                 }
             }
             match v.encode() {
